@@ -48,7 +48,8 @@ Section C01.
     wf_pure : forall n s1 s2 ins, In n (g_nodes g) -> exec n s1 ins = exec n s2 ins;
     wf_outs : forall n s ins outs dec, In n (g_nodes g) -> map fst ins = n_inputs n -> exec n s ins = OOk outs dec ->
                 map fst outs = n_outputs n /\ dec = None;
-    wf_nopause : forall n s ins p, In n (g_nodes g) -> exec n s ins <> OPause p }.
+    wf_nopause : forall n s ins p, In n (g_nodes g) -> exec n s ins <> OPause p;
+    wf_noint : forall n, In n (g_nodes g) -> is_interrupt n = false }.   (* no nested graph holding an interrupt either: nothing is isolated *)
 
   Hypothesis Hwf : WF.
 
@@ -493,8 +494,7 @@ Section C01Final.
   Lemma no_interrupts rd : (forall n, In n rd -> In n (g_nodes g)) -> List.filter is_interrupt rd = [].
   Proof.
     induction rd as [|a rd IH]; intros H; simpl; [reflexivity|].
-    destruct (wf_kinds _ _ _ Hwf a (H a (or_introl eq_refl))) as [[Hk|Hk] _];
-    unfold is_interrupt at 1; rewrite Hk; apply IH; intros n Hn; apply H; right; exact Hn.
+    rewrite (wf_noint _ _ _ Hwf a (H a (or_introl eq_refl))). apply IH; intros n Hn; apply H; right; exact Hn.
   Qed.
 
   Lemma sync_ok_all snap rd : forall acc log b calls,
